@@ -1,0 +1,190 @@
+//go:build verif
+
+// Contracts for gossipsub.go (properties C06, C07, C08, C09, C13, C17). Comment-only.
+
+package pubsub
+
+// ---- peer score as seen by the router ----
+//
+// The router only ever compares Score(p) with thresholds. For these contracts Score is an
+// uninterpreted function of the scoring state (abstracted by the ghost epoch, which every write
+// to the scoring structures invalidates) and the peer; every obligation is universally
+// quantified over its value, so both sides and equality of each threshold are covered. What the
+// value IS is specified under C10.
+//@ ghost var scoreEpoch int
+//@ tracks scoreEpoch: peerScore, peerStats, topicStats, map[peer.ID]*peerStats, map[string]*topicStats
+//@ spec fn scoreOf(epoch int, ps *peerScore, p string) real
+
+//@ func (*peerScore).Score
+//@   trusted the returned value is a deterministic function of the scoring state and the peer (its definition is verified under C10)
+//@   modifies nothing
+//@   ensures nil-scorer: ps == nil ==> result == 0.0
+//@   ensures value: ps != nil ==> result == scoreOf(scoreEpoch, ps, p)
+
+//@ spec fn score(gs *GossipSubRouter, p string) real = ite(gs.score == nil, 0.0, scoreOf(scoreEpoch, gs.score, p))
+
+// ---- C09: acceptance ----
+
+// The validation-overload gater only ever suppresses payload, never control traffic.
+//@ func (*peerGater).AcceptFrom
+//@   property C09
+//@   noframe
+//@   ensures payload-only: result == AcceptAll || result == AcceptControl
+//@   ensures no-gater: pg == nil ==> result == AcceptAll
+
+//@ func (*GossipSubRouter).AcceptFrom
+//@   property C09
+//@   noframe
+//@   ensures direct-always: p in old(gs.direct) ==> result == AcceptAll
+//@   ensures graylisted: !(p in old(gs.direct)) && old(score(gs, p)) < old(gs.graylistThreshold) ==> result == AcceptNone &&
+//@        calls((*peerGater).AcceptFrom) == old(calls((*peerGater).AcceptFrom))
+//@   ensures gated: !(p in old(gs.direct)) && !(old(score(gs, p)) < old(gs.graylistThreshold)) ==>
+//@        calls((*peerGater).AcceptFrom) == old(calls((*peerGater).AcceptFrom)) + 1 && result == lastret((*peerGater).AcceptFrom) &&
+//@        lastarg((*peerGater).AcceptFrom, 1) == p
+
+// ---- C08: prune backoff ----
+
+// Distinct topics own distinct, non-nil backoff maps (needed to frame writes to one of them).
+//@ spec fn sepBackoff(gs *GossipSubRouter) bool = gs.backoff != nil &&
+//@      (forall t string :: t in gs.backoff ==> gs.backoff[t] != nil && allocated(gs.backoff[t])) &&
+//@      (forall t1 string, t2 string :: t1 in gs.backoff && t2 in gs.backoff && t1 != t2 ==> gs.backoff[t1] != gs.backoff[t2])
+
+// doAddBackoff records max(existing expiry, now + interval) and touches nothing else.
+//@ func (*GossipSubRouter).doAddBackoff
+//@   property C08 C13
+//@   requires sep: sepBackoff(gs)
+//@   requires period: interval >= 0
+//@   modifies map(gs.backoff), maps(gs.backoff), clock
+//@   ensures recorded: has(gs.backoff, topic, p)
+//@   ensures max: gs.backoff[topic][p] == max(old(gs.backoff[topic][p]), now + interval)
+//@   ensures others: forall t string, q string :: t != topic || q != p ==>
+//@        has(gs.backoff, t, q) == old(has(gs.backoff, t, q)) && gs.backoff[t][q] == old(gs.backoff[t][q])
+//@   ensures sep: sepBackoff(gs)
+
+// validParams: what GossipSubParams.validate guarantees and the handlers rely on.
+//@ spec fn validBackoffParams(gs *GossipSubRouter) bool = gs.params.PruneBackoff >= 0 && gs.params.UnsubscribeBackoff >= 0
+
+//@ func (*GossipSubRouter).addBackoff
+//@   property C08
+//@   requires sep: sepBackoff(gs)
+//@   requires params: validBackoffParams(gs)
+//@   modifies map(gs.backoff), maps(gs.backoff), clock
+//@   ensures which-period: calls((*GossipSubRouter).doAddBackoff) == old(calls((*GossipSubRouter).doAddBackoff)) + 1 &&
+//@        lastarg((*GossipSubRouter).doAddBackoff, 1) == p && lastarg((*GossipSubRouter).doAddBackoff, 2) == topic &&
+//@        lastarg((*GossipSubRouter).doAddBackoff, 3) == ite(isUnsubscribe, old(gs.params.UnsubscribeBackoff), old(gs.params.PruneBackoff))
+//@   ensures recorded: has(gs.backoff, topic, p) &&
+//@        gs.backoff[topic][p] == max(old(gs.backoff[topic][p]), now + ite(isUnsubscribe, old(gs.params.UnsubscribeBackoff), old(gs.params.PruneBackoff)))
+//@   ensures others: forall t string, q string :: t != topic || q != p ==>
+//@        has(gs.backoff, t, q) == old(has(gs.backoff, t, q)) && gs.backoff[t][q] == old(gs.backoff[t][q])
+//@   ensures sep: sepBackoff(gs)
+
+// clearBackoff: only every 15th tick; removes only entries expired by more than the slack of two
+// heartbeat intervals, never alters a kept expiry, adds nothing.
+//@ func (*GossipSubRouter).clearBackoff
+//@   property C08 C13
+//@   requires sep: sepBackoff(gs)
+//@   modifies map(gs.backoff), maps(gs.backoff), clock
+//@   loop 1 invariant no-new: forall t string, q string :: has(gs.backoff, t, q) ==> old(has(gs.backoff, t, q)) && gs.backoff[t][q] == old(gs.backoff[t][q])
+//@   loop 1 invariant kept: forall t string, q string :: old(has(gs.backoff, t, q)) && !(old(gs.backoff[t][q]) + 2 * GossipSubHeartbeatInterval < now) ==> has(gs.backoff, t, q)
+//@   loop 1 invariant swept: forall t string, q string :: $visited[t] && old(has(gs.backoff, t, q)) && old(gs.backoff[t][q]) + 2 * GossipSubHeartbeatInterval < now ==> !has(gs.backoff, t, q)
+//@   loop 1 invariant sep: sepBackoff(gs) && (forall t string :: t in gs.backoff ==> old(t in gs.backoff) && gs.backoff[t] == old(gs.backoff[t]))
+//@   loop 1 invariant clock: now == lastret(time.Now)
+//@   loop 2 invariant no-new: forall t string, q string :: has(gs.backoff, t, q) ==> old(has(gs.backoff, t, q)) && gs.backoff[t][q] == old(gs.backoff[t][q])
+//@   loop 2 invariant kept: forall t string, q string :: old(has(gs.backoff, t, q)) && !(old(gs.backoff[t][q]) + 2 * GossipSubHeartbeatInterval < now) ==> has(gs.backoff, t, q)
+//@   loop 2 invariant swept-outer: forall t string, q string :: $visited#1[t] && t != topic && old(has(gs.backoff, t, q)) && old(gs.backoff[t][q]) + 2 * GossipSubHeartbeatInterval < now ==> !has(gs.backoff, t, q)
+//@   loop 2 invariant swept-inner: forall q string :: $visited[q] && old(has(gs.backoff, topic, q)) && old(gs.backoff[topic][q]) + 2 * GossipSubHeartbeatInterval < now ==> !has(gs.backoff, topic, q)
+//@   loop 2 invariant sep: sepBackoff(gs) && (forall t string :: t in gs.backoff ==> old(t in gs.backoff) && gs.backoff[t] == old(gs.backoff[t]))
+//@   loop 2 invariant no-insert: forall q string :: has(gs.backoff, topic, q) ==> $start[q]
+//@   loop 2 invariant current: topic in gs.backoff && gs.backoff[topic] == backoff && $visited#1[topic]
+//@   loop 2 invariant clock: now == lastret(time.Now)
+//@   ensures rate-limited: old(gs.heartbeatTicks) % 15 != 0 ==> (forall t string, q string :: has(gs.backoff, t, q) == old(has(gs.backoff, t, q)) && gs.backoff[t][q] == old(gs.backoff[t][q]))
+//@   ensures no-new: forall t string, q string :: has(gs.backoff, t, q) ==> old(has(gs.backoff, t, q)) && gs.backoff[t][q] == old(gs.backoff[t][q])
+//@   ensures kept-until-slack: forall t string, q string :: old(has(gs.backoff, t, q)) && !(old(gs.backoff[t][q]) + 2 * GossipSubHeartbeatInterval < now) ==> has(gs.backoff, t, q)
+//@   ensures swept: old(gs.heartbeatTicks) % 15 == 0 ==> (forall t string, q string :: old(has(gs.backoff, t, q)) && old(gs.backoff[t][q]) + 2 * GossipSubHeartbeatInterval < now ==> !has(gs.backoff, t, q))
+//@   ensures sep: sepBackoff(gs)
+
+// ---- C07: mesh bookkeeping ----
+
+// Distinct topics own distinct non-nil peer sets; no mesh set is shared with a fanout set or with
+// the direct-peer set (all three have the same Go type).
+//@ spec fn sepMesh(gs *GossipSubRouter) bool = gs.mesh != nil &&
+//@      (forall t string :: t in gs.mesh ==> gs.mesh[t] != nil && allocated(gs.mesh[t]) && gs.mesh[t] != gs.direct) &&
+//@      (forall t1 string, t2 string :: t1 in gs.mesh && t2 in gs.mesh && t1 != t2 ==> gs.mesh[t1] != gs.mesh[t2]) &&
+//@      (forall t string, u string :: t in gs.mesh && u in gs.fanout ==> gs.mesh[t] != gs.fanout[u])
+
+//@ func (*peerScore).AddPenalty
+//@   trusted behaviour-penalty counter update; specified under C10
+//@   modifies scoreEpoch
+
+//@ spec fn ctlTopic(t *string) string = ite(t != nil, deref(t), "")
+//@ spec fn statedBackoff(pr *pb.ControlPrune) int = ite(pr != nil && pr.Backoff != nil, deref(pr.Backoff), 0)
+
+// handlePrune: the pruning peer leaves exactly the meshes of the joined topics it named; the
+// backoff it stated (else the configured one) is recorded for each; PX is followed only at or
+// above the accept-PX threshold.
+//@ func (*GossipSubRouter).handlePrune
+//@   property C07 C08 C09
+//@   requires sep: sepMesh(gs) && sepBackoff(gs) && validBackoffParams(gs)
+//@   requires ctl: forall i int :: 0 <= i && i < len(ctl.Prune) ==> ctl.Prune[i] != nil
+//@   noframe
+//@   loop 1 invariant others: forall t string, q string :: q != p ==> has(gs.mesh, t, q) == old(has(gs.mesh, t, q))
+//@   loop 1 invariant no-add: forall t string :: has(gs.mesh, t, p) ==> old(has(gs.mesh, t, p))
+//@   loop 1 invariant topics: forall t string :: (t in gs.mesh) == old(t in gs.mesh) && gs.mesh[t] == old(gs.mesh[t])
+//@   loop 1 invariant sep: sepMesh(gs) && sepBackoff(gs) && validBackoffParams(gs)
+//@   loop 1 invariant backoff-grows: forall t string, q string :: old(has(gs.backoff, t, q)) ==> has(gs.backoff, t, q) && gs.backoff[t][q] >= old(gs.backoff[t][q])
+//@   loop 1 invariant score-read-once: score == old(score(gs, p))
+//@   loop 1 invariant removed: ctl != nil ==> (forall i int :: 0 <= i && i <= rangeindex ==> !has(gs.mesh, ctlTopic(ctl.Prune[i].TopicID), p))
+//@   at call doAddBackoff assert stated-period: $arg1 == p && $arg2 == topic && $arg3 == statedBackoff(prune) * 1000000000 && statedBackoff(prune) > 0
+//@   at call addBackoff assert default-period: $arg1 == p && $arg2 == topic && !$arg3
+//@   at call pxConnect assert px-threshold: score >= gs.acceptPXThreshold
+//@   at call Prune assert traced-topic: $arg1 == p && $arg2 == topic && topic in gs.mesh
+//@   ensures removed: ctl != nil ==> (forall i int :: 0 <= i && i < len(old(ctl.Prune)) ==> !has(gs.mesh, ctlTopic(old(ctl.Prune[i].TopicID)), p))
+//@   ensures others: forall t string, q string :: q != p ==> has(gs.mesh, t, q) == old(has(gs.mesh, t, q))
+//@   ensures no-add: forall t string :: has(gs.mesh, t, p) ==> old(has(gs.mesh, t, p))
+//@   ensures topics: forall t string :: (t in gs.mesh) == old(t in gs.mesh)
+//@   ensures backoff-grows: forall t string, q string :: old(has(gs.backoff, t, q)) ==> has(gs.backoff, t, q) && gs.backoff[t][q] >= old(gs.backoff[t][q])
+//@   ensures sep: sepMesh(gs) && sepBackoff(gs)
+
+// handleGraft: the sender is added to a mesh only for a joined topic, only if it is not a
+// direct peer, has no active backoff, a non-negative score, and the mesh is below Dhi or the
+// connection is outbound; nothing else in any mesh changes; no mesh is created; backoffs only
+// grow; a refusal for an active backoff is penalised (twice inside the flood window); every PRUNE
+// of the response is built with the same doPX flag, which is false once any graft was refused
+// for a direct peer, an active backoff, a negative score or an unknown topic.
+//@ spec fn admissible(gs *GossipSubRouter, t string, p string, sc real, at int) bool =
+//@      t in gs.mesh && !(p in gs.direct) && !(has(gs.backoff, t, p) && at < gs.backoff[t][p]) && sc >= 0.0 &&
+//@      (len(gs.mesh[t]) < gs.params.Dhi || gs.outbound[p])
+//@ spec fn wasAdmissible(gs *GossipSubRouter, t string, p string, sc real, at int) bool =
+//@      old(t in gs.mesh) && !old(p in gs.direct) && !(old(has(gs.backoff, t, p)) && at < old(gs.backoff[t][p])) && sc >= 0.0 &&
+//@      (old(len(gs.mesh[t])) < old(gs.params.Dhi) || old(gs.outbound[p]))
+//@ func (*GossipSubRouter).handleGraft
+//@   property C07 C08 C09
+//@   requires sep: sepMesh(gs) && sepBackoff(gs) && validBackoffParams(gs)
+//@   requires ctl: forall i int :: 0 <= i && i < len(ctl.Graft) ==> ctl.Graft[i] != nil
+//@   noframe
+//@   loop 1 invariant others: forall t string, q string :: q != p ==> has(gs.mesh, t, q) == old(has(gs.mesh, t, q))
+//@   loop 1 invariant kept: forall t string :: old(has(gs.mesh, t, p)) ==> has(gs.mesh, t, p)
+//@   loop 1 invariant topics: forall t string :: (t in gs.mesh) == old(t in gs.mesh) && gs.mesh[t] == old(gs.mesh[t])
+//@   loop 1 invariant admitted: forall t string :: has(gs.mesh, t, p) && !old(has(gs.mesh, t, p)) ==> old(admissible(gs, t, p, score, now))
+//@   loop 1 invariant sizes: forall t string :: t in gs.mesh ==> len(gs.mesh[t]) == old(len(gs.mesh[t])) + ite(has(gs.mesh, t, p) && !old(has(gs.mesh, t, p)), 1, 0)
+//@   loop 1 invariant sep: sepMesh(gs) && sepBackoff(gs) && validBackoffParams(gs)
+//@   loop 1 invariant stable: gs.direct == old(gs.direct) && (p in gs.direct) == old(p in gs.direct) && gs.outbound[p] == old(gs.outbound[p]) && gs.params.Dhi == old(gs.params.Dhi)
+//@   loop 1 invariant backoff-grows: forall t string, q string :: old(has(gs.backoff, t, q)) ==> has(gs.backoff, t, q) && gs.backoff[t][q] >= old(gs.backoff[t][q])
+//@   loop 1 invariant backoff-only-p: forall t string, q string :: q != p ==> has(gs.backoff, t, q) == old(has(gs.backoff, t, q)) && gs.backoff[t][q] == old(gs.backoff[t][q])
+//@   loop 1 invariant score-read-once: score == old(score(gs, p)) && now == lastret(time.Now)
+//@   loop 1 invariant nopx-when-bad: score < 0.0 && len(prune) > 0 ==> !doPX
+//@   loop 1 invariant nopx-when-penalised: calls((*peerScore).AddPenalty) > old(calls((*peerScore).AddPenalty)) ==> !doPX && len(prune) > 0
+//@   loop 2 invariant pruning: calls((*GossipSubRouter).makePrune) - old(calls((*GossipSubRouter).makePrune)) == rangeindex + 1 && rangeindex + 1 <= len(prune) && len(cprune) == rangeindex + 1
+//@   at call AddPenalty#1 assert backoff-active: $arg1 == p && $arg2 == 1 && has(gs.backoff, topic, p) && now < gs.backoff[topic][p]
+//@   at call AddPenalty#2 assert flood-window: $arg1 == p && $arg2 == 1 && now < gs.backoff[topic][p] + gs.params.GraftFloodThreshold - gs.params.PruneBackoff
+//@   at call addBackoff assert refused: $arg1 == p && $arg2 == topic && !$arg3
+//@   at call Graft assert admitted-traced: $arg1 == p && $arg2 == topic
+//@   at call makePrune assert same-px: $arg1 == p && $arg3 == doPX && !$arg4 && (score < 0.0 ==> !$arg3) &&
+//@        (calls((*peerScore).AddPenalty) > old(calls((*peerScore).AddPenalty)) ==> !$arg3)
+//@   ensures others: forall t string, q string :: q != p ==> has(gs.mesh, t, q) == old(has(gs.mesh, t, q))
+//@   ensures kept: forall t string :: old(has(gs.mesh, t, p)) ==> has(gs.mesh, t, p)
+//@   ensures no-new-mesh: forall t string :: (t in gs.mesh) == old(t in gs.mesh)
+//@   ensures admitted-only-if: forall t string :: has(gs.mesh, t, p) && !old(has(gs.mesh, t, p)) ==> wasAdmissible(gs, t, p, old(score(gs, p)), lastret(time.Now))
+//@   ensures backoff-grows: forall t string, q string :: old(has(gs.backoff, t, q)) ==> has(gs.backoff, t, q) && gs.backoff[t][q] >= old(gs.backoff[t][q])
+//@   ensures response: result == nil || len(result) == len(prune)
+//@   ensures sep: sepMesh(gs) && sepBackoff(gs)
